@@ -4,7 +4,9 @@ C14 — Modelica declarations are honoured: bounds, nominal, start, fixed, types
 Proof obligations: lean/RtcVerif/Props/C14.lean (decision logic, one theorem per clause).
 Correspondence: generated `.mo` files over attribute combinations (literal / parameter-dependent
 min, max, nominal, start; Real / Integer / Boolean; fixed / non-fixed; inputs fixed / non-fixed /
-lookup / delay; outputs) x overriding sources (model, parameters.csv through CSVMixin, code;
+lookup / delay; outputs, incl. outputs that are (negated, chained) aliases of controls / constant
+inputs / states; an export stream (harness/c14_outputs.py) that solves a CSVMixin problem and reads
+the written timeseries_export.csv back) x overriding sources (model, parameters.csv through CSVMixin, code;
 inherited bounds from a base class).  The variable records are taken from pymoca itself (the
 harness records what `transfer_model` returns to the mixin), handed to the Lean model
 (Drivers/C14.lean) and compared with what the real `ModelicaMixin` / `SimulationProblem` report
@@ -222,6 +224,26 @@ def gen_spec(rng, idx, for_sim):
                           "fixed": rng.choice([True, False]), "output": False})
         lookup = ["tab"]
     delay = not for_sim and rng.random() < 0.25
+    if not for_sim and rng.random() < 0.5:
+        # declared outputs that pymoca turns into (negated, chained) aliases of a control / constant input /
+        # state / another alias output: they are exported under their own name, next to every control
+        # (pymoca merges the attributes of an eliminated alias into the canonical variable with
+        #  nominal := fmax(nominal, alias nominal = 0): a negative or parameter-dependent declared nominal
+        #  of an aliased variable is lost / no longer affine -- reported; such targets are kept out of this stream)
+        def eligible(n):
+            a = next(v for v in variables if v["name"] == n)["attrs"]["nominal"]
+            return a is None or (a[0] == "lit" and a[1] > 0)
+
+        pool = [n for n in ["u0", "u0", "u1", "x0"] if eligible(n)]
+        for j in range(rng.choice([1, 1, 2]) if pool else 0):
+            of, neg = rng.choice(pool), rng.random() < 0.5
+            name = "ya%d" % j
+            eq = (rng.choice(["{a} = -{t}", "{a} + {t} = 0", "0 = {t} + {a}"]) if neg
+                  else rng.choice(["{a} = {t}", "{t} = {a}", "{a} - {t} = 0"])).format(a=name, t=of)
+            variables.append({"name": name, "kind": "aliasout", "mtype": "Real", "alias_of": (of, -1 if neg else 1),
+                              "attrs": {"min": None, "max": None, "nominal": None, "start": None},
+                              "fixed": None, "output": True, "eq": eq})
+            pool.append(name)
     eqs = []
     for v in variables:
         if v["kind"] == "state":
@@ -522,8 +544,12 @@ def check_opt(c, spec, folder, lines, pending):
             c.fail("algebraic %r not among the algebraics" % v["name"], case, names)
     exp_out = [v["name"] for v in spec["variables"] if v["output"]] + [n for n, r in exp_role.items() if r == "control_inputs"]
     c.count(("opt", "outputs", len(exp_out)))
+    for v in spec["variables"]:
+        if v["kind"] == "aliasout":
+            c.hit("outputs/alias-of-%s%s" % (exp_role.get(v["alias_of"][0], "state-or-output"), "-negated" if v["alias_of"][1] < 0 else ""))
     if sorted(obs["outputs"]) != sorted(exp_out):
-        c.fail("output_variables are not the declared outputs plus the controls", case, {"expected": exp_out, "got": obs["outputs"]})
+        c.fail("output_variables are not the declared outputs plus every control, each once", case,
+               {"expected": sorted(exp_out), "got": sorted(obs["outputs"]), "missing": sorted(set(exp_out) - set(obs["outputs"]))})
     declared_vars = [v for v in spec["variables"] if v["kind"] in ("state", "alg", "input")]
     # bounds
     exp_b = {v["name"]: decl.bounds(v) for v in declared_vars}
@@ -809,7 +835,9 @@ def probe_f5(c, folder):
 def run(c):
     c.rule = (
         "generated Modelica models: 1-3 states, Real/Integer/Boolean algebraics, inputs (control / fixed / Boolean / "
-        "lookup / delay), outputs; every attribute absent / literal / affine in a parameter (incl. a parameter "
+        "lookup / delay), outputs (plain, and (negated, chained) aliases of controls / constant inputs / states / "
+        "other outputs); an export stream: CSVMixin problems with alias outputs, solved, timeseries_export.csv read "
+        "back (one column per declared output and per control, values with the alias sign); every attribute absent / literal / affine in a parameter (incl. a parameter "
         "without value); fixed true/false/absent; parameter sources model / parameters.csv / code (and a deleted "
         "parameter); a second ensemble member with its own parameter values (start values per member, bounds and "
         "nominals from member 0); inherited bounds from a base class; simulation: start x fixed x initial_state x "
@@ -823,6 +851,8 @@ def run(c):
         "generated models are affine in one parameter",
         "IPOPT returns the minimiser of the initialisation problem (simulation start values compared with 1e-6 x nominal^2)",
         "parameter-dependent values compared with 1e-9 relative tolerance",
+        "export stream: IPOPT reaches the unconstrained optimum of sum (u - target)^2 within 1e-4; the export file "
+        "holds 6 decimals (columns compared with 3e-6)",
     ]
     from .translate_c14 import gen_modelica_attrs
 
@@ -838,6 +868,12 @@ def run(c):
             spec = gen_spec(c.rng, 1000 + i, for_sim=True)
             spec["text"] = write_mo(folder, spec["name"], spec["recs"], spec["eqs"])
             check_sim(c, spec, folder, lines, pending)
+        from .c14_outputs import check_out, compare_out, gen_out_spec
+
+        for i in range(c.n(5, 30)):
+            spec = gen_out_spec(c.rng, 2000 + i)
+            spec["text"] = write_mo(folder, spec["name"], spec["recs"], spec["eqs"])
+            check_out(c, spec, folder, lines, pending, record_pymoca)
         r = call(lambda: probe_f5(c, folder))
     outs = c.model(lines)
     if outs is not None:
@@ -848,6 +884,8 @@ def run(c):
                 compare_opt(c, mo, *pend[1:])
             elif pend[0] == "opt1":
                 compare_opt(c, mo, *pend[1:])
+            elif pend[0] == "outputs":
+                compare_out(c, mo, *pend[1:])
             else:
                 compare_sim(c, mo, *pend[1:])
     # F5
@@ -856,6 +894,9 @@ def run(c):
     else:
         reproduced, what = r[1]
         c.known_probe("F5", reproduced, what)
+    c.notes.append("alias outputs in the main stream only alias variables whose declared nominal is absent or a positive "
+                   "literal: pymoca's alias elimination sets nominal := fmax(nominal, 0), which loses a negative nominal "
+                   "of an aliased variable (variable_nominal gives 1 instead of |n|) -- pymoca-level, reported")
     c.exhaustive = False
     c.notes.append("decision logic proved per clause; the generated models tie it to ModelicaMixin / "
                    "SimulationProblem; file bounds series (<var>_Min/_Max) are kept out of the main stream (F5)")
